@@ -132,13 +132,48 @@ fn decode_str_lit(s: &str) -> Option<String> {
     Some(out)
 }
 
+/// dash-to-camel for any run of dashes (the documented normalisation of property / dataset names)
+fn camel_loose(s: &str) -> String {
+    let mut out = String::new();
+    let mut up = false;
+    for c in s.chars() {
+        if c == '-' {
+            up = true;
+        } else if up {
+            up = false;
+            out.push(c.to_ascii_uppercase());
+        } else {
+            out.push(c);
+        }
+    }
+    if out.is_empty() {
+        s.to_string()
+    } else {
+        out
+    }
+}
+
 fn number_value(s: &str) -> Option<f64> {
     let t = s.trim();
+    let radix = |digits: &str, r: u32| -> Option<f64> {
+        if digits.is_empty() {
+            return None;
+        }
+        // exact while it fits, then the same left-to-right float accumulation a JavaScript engine's slow path uses
+        let mut exact: Option<u128> = Some(0);
+        let mut f = 0f64;
+        for c in digits.chars() {
+            let d = c.to_digit(r)?;
+            exact = exact.and_then(|v| v.checked_mul(r as u128)).and_then(|v| v.checked_add(d as u128));
+            f = f * r as f64 + d as f64;
+        }
+        Some(exact.map(|v| v as f64).unwrap_or(f))
+    };
     if let Some(h) = t.strip_prefix("0x").or_else(|| t.strip_prefix("0X")) {
-        return u128::from_str_radix(h, 16).ok().map(|v| v as f64);
+        return radix(h, 16);
     }
     if t.len() > 1 && t.starts_with('0') && t.chars().all(|c| ('0'..='7').contains(&c)) {
-        return u128::from_str_radix(t, 8).ok().map(|v| v as f64);
+        return radix(t, 8);
     }
     t.parse::<f64>().ok()
 }
@@ -153,6 +188,10 @@ pub struct Walk<'s> {
     pub texts: HashMap<((u32, u32), (u32, u32)), Vec<String>>,
     pub located: u64,
     pub astral_before: bool,
+    /// false when the parser reported a Warn-level recovery (missing / mismatched end tags ...): the recovered tree
+    /// carries synthetic tag delimiters and spans, so only leaf spellings and expression structure are judged
+    pub strict_structure: bool,
+    in_expr: u32,
 }
 
 fn key(p: Position) -> (u32, u32) {
@@ -167,7 +206,7 @@ impl<'s> Walk<'s> {
                 line_starts.push(i + 1);
             }
         }
-        Walk { src, line_starts, problems: vec![], starts: HashSet::new(), texts: HashMap::new(), located: 0, astral_before: false }
+        Walk { src, line_starts, problems: vec![], starts: HashSet::new(), texts: HashMap::new(), located: 0, astral_before: false, strict_structure: true, in_expr: 0 }
     }
 
     fn problem(&mut self, class: &str, what: String) {
@@ -216,9 +255,14 @@ impl<'s> Walk<'s> {
         }
     }
 
+    /// spellings are judged for clean parses, and inside expressions always (recoveries do not rewrite expressions)
+    fn judge(&self) -> bool {
+        self.strict_structure || self.in_expr > 0
+    }
+
     fn exact(&mut self, kind: &str, r: &R, text: &str) {
         if let Some(s) = self.slice(kind, r) {
-            if s != text {
+            if s != text && self.judge() {
                 self.problem(&format!("slice:{}", kind), format!("{} `{}` has location {:?}-{:?} which spans {:?}", kind, text, key(r.start), key(r.end), crate::util::truncate(s, 60)));
             }
         }
@@ -235,7 +279,7 @@ impl<'s> Walk<'s> {
 
     fn one_of(&mut self, kind: &str, r: &R, texts: &[&str]) {
         if let Some(s) = self.slice(kind, r) {
-            if !texts.contains(&s) {
+            if !texts.contains(&s) && self.judge() {
                 self.problem(&format!("slice:{}", kind), format!("{} location {:?}-{:?} spans {:?}, expected {:?}", kind, key(r.start), key(r.end), crate::util::truncate(s, 60), texts));
             }
         }
@@ -246,20 +290,23 @@ impl<'s> Walk<'s> {
             let d = decode_entities(s);
             let ok = d == text || strip.map(|sfx| d.strip_suffix(sfx) == Some(text)).unwrap_or(false);
             self.texts.entry((key(r.start), key(r.end))).or_default().push(d.clone());
-            if !ok {
+            if !ok && self.judge() {
                 self.problem(&format!("slice:{}", kind), format!("{} `{}` has location {:?}-{:?} which spans {:?}", kind, crate::util::truncate(text, 60), key(r.start), key(r.end), crate::util::truncate(s, 60)));
             }
         }
     }
 
     fn inside(&mut self, kind: &str, outer: (Position, Position), r: &R) {
+        if !self.strict_structure && (kind == "child-node" || kind.starts_with("wx:") || kind.ends_with("-static-value") || kind.ends_with("-expression") || kind.ends_with("-name") || kind.ends_with("-value")) {
+            return;
+        }
         if !(outer.0 <= r.start && r.end <= outer.1) {
             self.problem(&format!("nesting:{}", kind), format!("{} at {:?}-{:?} is not inside its parent's span {:?}-{:?}", kind, key(r.start), key(r.end), key(outer.0), key(outer.1)));
         }
     }
 
     fn ordered(&mut self, kind: &str, a: Position, b: Position) {
-        if a > b {
+        if a > b && self.judge() {
             self.problem(&format!("order:{}", kind), format!("{}: {:?} comes after {:?}", kind, key(a), key(b)));
         }
     }
@@ -270,10 +317,10 @@ impl<'s> Walk<'s> {
         if let Some(s) = self.slice(kind, &id.location) {
             let d = decode_entities(s);
             self.texts.entry((key(id.location.start), key(id.location.end))).or_default().push(d.clone());
-            let camel = crate::model::wxml::dash_to_camel_ref(&d);
-            let data = d.strip_prefix("data-").map(|r| crate::model::wxml::dash_to_camel_ref(&r.to_lowercase()));
+            let camel = camel_loose(&d);
+            let data = d.strip_prefix("data-").map(|r| camel_loose(&r.to_lowercase()));
             let ok = d == id.name.as_str() || (kind != "tag-name" && (camel == id.name.as_str() || data.as_deref() == Some(id.name.as_str())));
-            if !ok {
+            if !ok && self.judge() {
                 self.problem(&format!("slice:{}", kind), format!("{} `{}` has location {:?}-{:?} which spans {:?}", kind, crate::util::truncate(&id.name, 60), key(id.location.start), key(id.location.end), crate::util::truncate(s, 60)));
             }
         }
@@ -313,6 +360,12 @@ impl<'s> Walk<'s> {
     }
 
     fn expr(&mut self, e: &Expression, top: bool) {
+        self.in_expr += 1;
+        self.expr_inner(e, top);
+        self.in_expr -= 1;
+    }
+
+    fn expr_inner(&mut self, e: &Expression, top: bool) {
         let whole = e.location();
         let span = (whole.start, whole.end);
         macro_rules! bin {
@@ -376,14 +429,16 @@ impl<'s> Walk<'s> {
             Expression::LitFloat { value, location, .. } => {
                 if let Some(s) = self.slice("number-literal", location) {
                     let v = number_value(s);
-                    if !(v == Some(*value) || (value.is_nan() && v.map(|x| x.is_nan()).unwrap_or(false))) {
+                    let close = |a: f64, b: f64| a == b || ((a - b).abs() <= 1e-12 * a.abs().max(b.abs()));
+                    if !(v.map(|x| close(x, *value)).unwrap_or(false) || (value.is_nan() && v.map(|x| x.is_nan()).unwrap_or(false))) {
                         self.problem("slice:number-literal", format!("float literal {} has location {:?}-{:?} which spans {:?}", value, key(location.start), key(location.end), crate::util::truncate(s, 40)));
                     }
                 }
             }
             Expression::LitObj { fields, brace_location, .. } => {
                 // the object of `<template data>` has no braces of its own (empty ranges)
-                if brace_location.0.start != brace_location.0.end || !top {
+                let _ = top;
+                if brace_location.0.start != brace_location.0.end || brace_location.1.start != brace_location.1.end {
                     self.exact("brace", &brace_location.0, "{");
                     self.exact("brace", &brace_location.1, "}");
                 } else {
@@ -527,14 +582,36 @@ impl<'s> Walk<'s> {
     }
 
     fn tag_location(&mut self, t: &TagLocation) -> (Position, Position) {
+        if !self.strict_structure {
+            for r in [&t.start.0, &t.start.1, &t.close] {
+                self.slice("tag-delimiter", r);
+            }
+            let mut end = t.start.1.end;
+            if let Some((a, b)) = &t.end {
+                self.slice("tag-delimiter", a);
+                self.slice("tag-delimiter", b);
+                end = b.end;
+            }
+            return (t.start.0.start, end);
+        }
         self.exact("tag-open", &t.start.0, "<");
         self.exact("tag-close", &t.start.1, ">");
-        self.exact("tag-slash", &t.close, "/");
+        // (an element whose end tag is missing — a Warn-level recovery — reuses the `>` of its start tag here)
+        if t.end.is_none() && t.close == t.start.1 {
+            self.slice("tag-slash", &t.close);
+        } else {
+            self.exact("tag-slash", &t.close, "/");
+        }
         self.ordered("start-tag", t.start.0.end, t.start.1.start);
         let mut end = t.start.1.end;
         if let Some((a, b)) = &t.end {
             self.exact("end-tag-open", a, "<");
-            self.exact("end-tag-close", b, ">");
+            // (an end tag that the end of the source cuts off has an empty closing range; it carries a diagnostic)
+            if b.start != b.end {
+                self.exact("end-tag-close", b, ">");
+            } else {
+                self.slice("end-tag-close", b);
+            }
             self.ordered("tag-ends", t.start.1.end, a.start);
             self.ordered("end-tag", a.end, b.start);
             end = b.end;
@@ -550,7 +627,8 @@ impl<'s> Walk<'s> {
     fn content_span(t: &TagLocation) -> (Position, Position) {
         match &t.end {
             Some((a, _)) => (t.start.1.end, a.start),
-            None => (t.start.1.end, t.start.1.end),
+            // self-closed, or the end tag is missing (a Warn-level recovery: the children follow the start tag)
+            None => (t.start.1.end, Position { line: u32::MAX, utf16_col: u32::MAX }),
         }
     }
 
@@ -650,11 +728,16 @@ impl<'s> Walk<'s> {
                 Node::Element(e) => Some(self.element(e, span)),
                 Node::Comment(c) => {
                     if let Some(s) = self.slice("comment", &c.location) {
-                        if !(s.starts_with("<!--") && s.ends_with("-->")) {
+                        // (a comment that the end of the source cuts off has no `-->`)
+                        if !s.starts_with("<!--") {
                             self.problem("slice:comment", format!("comment location {:?}-{:?} spans {:?}", key(c.location.start), key(c.location.end), crate::util::truncate(s, 40)));
                         }
                     }
                     Some(c.location.clone())
+                }
+                Node::UnknownMetaTag(m) => {
+                    self.slice("meta-tag", &m.location);
+                    Some(m.location.clone())
                 }
                 _ => None,
             };
@@ -861,6 +944,13 @@ fn sources(c: &Case) -> Vec<(String, String, Vec<PosEntry>)> {
 }
 
 pub fn check_source(path: &str, src: &str, pos: &[PosEntry], out: &mut Outcome) -> Result<(), String> {
+    check_source_with(path, src, pos, out, 2)
+}
+
+/// `strict_below`: structure, spelling and source-map construct checks are applied when every diagnostic is below this
+/// level (2 = Warn: the generated-template check; 1 = any diagnostic at all: the fuzz oracle, whose inputs are
+/// arbitrary text where even Note-level recoveries leave synthetic locations)
+pub fn check_source_with(path: &str, src: &str, pos: &[PosEntry], out: &mut Outcome, strict_below: u8) -> Result<(), String> {
     let parsed = std::panic::catch_unwind(|| {
         let (t, mut ps) = glass_easel_template_compiler::parse::parse(path, src);
         let w = ps.take_warnings();
@@ -880,6 +970,10 @@ pub fn check_source(path: &str, src: &str, pos: &[PosEntry], out: &mut Outcome) 
         return Ok(());
     }
     let mut w = Walk::new(src);
+    w.strict_structure = !warnings.iter().any(|x| crate::compile::level_no(&x.kind.level()) >= strict_below);
+    if !w.strict_structure {
+        out.labels.push("recovered-tree(leaf checks only)".into());
+    }
     w.nodes(&tmpl.content, None);
     for i in &tmpl.globals.imports {
         w.tag_location(&i.tag_location);
@@ -963,19 +1057,19 @@ pub fn check_source(path: &str, src: &str, pos: &[PosEntry], out: &mut Outcome) 
                 match w.offset(sp) {
                     None => w.problem("map:source-position", format!("source-map token at output {:?} points to {:?} which is not a position of the source", d, key(sp))),
                     Some(o) => {
-                        if !w.starts.contains(&key(sp)) {
+                        if w.strict_structure && !w.starts.contains(&key(sp)) {
                             w.problem("map:construct-start", format!("source-map token at output {:?} points to {:?} ({:?}...) which is not the start of a located construct", d, key(sp), crate::util::truncate(&src[o..], 12)));
                         }
-                        if let Some(name) = t.get_name() {
-                            let mut hi = (o + name.len() * 10 + 16).min(src.len());
+                        if let Some(name) = t.get_name().filter(|_| w.strict_structure) {
+                            let mut hi = (o + name.len() * 10 + 4096).min(src.len());
                             while !src.is_char_boundary(hi) {
                                 hi -= 1;
                             }
                             let text = &src[o..hi];
                             let dec = decode_entities(text);
                             let run: String = dec.chars().take_while(|c| c.is_ascii_alphanumeric() || matches!(c, '_' | '-' | '.' | '$')).collect();
-                            let camel = crate::model::wxml::dash_to_camel_ref(&run);
-                            let data = run.strip_prefix("data-").map(|r| crate::model::wxml::dash_to_camel_ref(&r.to_lowercase()));
+                            let camel = camel_loose(&run);
+                            let data = run.strip_prefix("data-").map(|r| camel_loose(&r.to_lowercase()));
                             if !(text.starts_with(name) || dec.starts_with(name) || camel == name || data.as_deref() == Some(name)) {
                                 w.problem("map:name", format!("source-map token named {:?} points to {:?} where the source reads {:?}", crate::util::truncate(name, 30), key(sp), crate::util::truncate(text, 30)));
                             }
@@ -1021,6 +1115,14 @@ pub fn run(tier: Tier, seed: u64, findings: &Findings) -> i32 {
     let mut report = super::run_regress(&check, &cfg, findings);
     let cases = tier.pick(24_000, 600_000);
     report.merge(engine::run_generated(&check, &cfg, cases, 8, 16, findings, 0));
+    // coverage-guided stage on arbitrary text (oracle: fuzz_oracles::tmpl_positions)
+    super::fuzz_stage::replay_regress("tmpl_positions", "C16", &mut report);
+    if tier == Tier::Thorough && report.violations.is_empty() {
+        let t = super::fuzz_stage::FuzzTarget { name: "tmpl_positions", corpus_kind: "tmpl", runs: 6_000_000, max_len: 800 };
+        if let Err(e) = super::fuzz_stage::campaign(&t, "C16", seed, &mut report) {
+            report.errors.push(e);
+        }
+    }
     engine::finish(
         Finish {
             cfg,
@@ -1031,6 +1133,7 @@ pub fn run(tier: Tier, seed: u64, findings: &Findings) -> i32 {
                 "synthetic nodes of mixed values carry the location of the adjacent binding braces; default wx:for item / index names carry the location of the wx:for attribute; `data-` names are stored camel-cased (not compared literally)".into(),
                 "a source-map name is compared with the entity-decoded source text".into(),
                 "templates answered with an Error / Fatal diagnostic are outside the quantifier (counted)".into(),
+                "thorough tier: a libFuzzer campaign (cargo-fuzz target tmpl_positions, corpus from the generators) judges arbitrary text with the same walk; structure / spelling / source-map-construct checks apply there only to inputs parsed without any diagnostic, location validity to all".into(),
             ],
             started,
             exhaustive: false,
